@@ -3,6 +3,7 @@ operator[] exactly at size == capacity, colliding hashes, drain-and-refill, remo
 import random
 
 M64 = (1 << 64) - 1
+POOL_N = 4096      # comp/hashmap/harness.cpp
 
 def signed_key(rng, keyspace):
     """a key for the signed-key instantiation (hash kind 5), as its 64-bit two's complement pattern; mostly NEGATIVE values
@@ -21,12 +22,15 @@ def signed_key(rng, keyspace):
     return v & M64
 
 def gen_case(rng, n_ops, kind=None, keyspace=None):
-    kind = rng.choice([0, 0, 1, 2, 3, 4, 5, 5]) if kind is None else kind
+    kind = rng.choice([0, 0, 1, 2, 3, 4, 5, 5, 6, 6]) if kind is None else kind
     keyspace = keyspace or rng.choice([8, 24, 50, 200, 1 << 20, 1 << 40])
+    if kind == 6:
+        # pointer keys: the script key is the index of an object in the harness's pool of 4096 `Derived : Base1, Base2`
+        keyspace = min(keyspace, rng.choice([50, 200, POOL_N]))
     # the hasher object the map is constructed from: a temporary ("tmp"), or the harness's own lvalue whose state the script
     # changes later ("reseed k": the map must keep using the copy it made); kind 5 uses the stateless frg::hash<int64_t>
-    temporary = kind != 5 and rng.random() < 0.15
-    reseed_p = 0.0 if (kind == 5 or temporary) else rng.choice([0.0, 0.02, 0.05])
+    temporary = kind < 5 and rng.random() < 0.15
+    reseed_p = 0.0 if (kind >= 5 or temporary) else rng.choice([0.0, 0.02, 0.05])
     lines = ["hash %d%s" % (kind, " tmp" if temporary else "")]
     present = []
     def draw():
@@ -35,7 +39,7 @@ def gen_case(rng, n_ops, kind=None, keyspace=None):
         return rng.randrange(keyspace)
     def newkey():
         for _ in range(50):
-            if kind == 5:
+            if kind >= 5:
                 k = draw()
             else:
                 k = rng.randrange(keyspace) if rng.random() < 0.9 else rng.choice([0, 2**32 - 1, 2**32, 2**64 - 1, 2**63])
@@ -85,7 +89,7 @@ def gen_case(rng, n_ops, kind=None, keyspace=None):
             phase = rng.choice(["mixed", "grow", "grow_idx", "churn"])
         if reseed_p and present and rng.random() < reseed_p:
             lines.append("reseed %d" % rng.choice([k for k in range(5) if k != kind]))
-    if present and kind != 5:
+    if present and kind < 5:
         # every present key is looked up once more at the end (after all reseeds)
         lines += ["g %d" % k for k in rng.sample(present, min(len(present), 6))]
     lines += ["sz", "it"]
@@ -99,6 +103,10 @@ def corpus():
     cs.append(("corpus-d10-insert-then-index", ["hash 0"] + ["i %d %d" % (i, i + 1) for i in range(10)] + ["x 10 5", "g 10", "sz", "it"]))
     cs.append(("corpus-const-hash", ["hash 1"] + ["i %d %d" % (i, i) for i in range(12)] + ["r 0", "r 11", "r 5", "it", "sz"]))
     cs.append(("corpus-drain-refill", ["hash 3"] + ["i %d 1" % i for i in range(11)] + ["r %d" % i for i in range(11)] + ["it", "x 4 4", "it", "sz"]))
+    # seeded change r6-1 (frg::hash<T *> takes const void *: a Derived * is hashed without the derived-to-base adjustment):
+    # pointer-keyed map over a non-first base, get() through Derived *, across the growth thresholds 10, 20, 40
+    cs.append(("corpus-pointer-keys-derived-get", ["hash 6"] + sum((["i %d %d" % (k, k + 1), "g %d" % k] for k in range(0, 45)), []) +
+               ["g 100", "r 7", "g 7", "x 7 70", "g 7", "it", "sz"]))
     cs.append(("corpus-empty", ["hash 0", "g 1", "r 1", "it", "sz"]))
     # seeded change r4-2 (_hasher became a reference to the caller's object): the caller re-seeds its hasher after filling the map
     cs.append(("corpus-reseed-caller-hasher", ["hash 0"] + ["i %d %d" % (k, k + 1) for k in range(15)] + ["reseed 1"] +
